@@ -803,7 +803,9 @@ def _group_func_wrap(
     values, orig_types = zip(*list(map(_cast_timestamps_to_ints, values)))
     orig_type = orig_types[0]
 
-    if reduce_func_name == "sum_squares":
+    if "sum_squares" in reduce_func_name:
+        # (the name arrives as "nansum_squares"); squares of integers are summed in float64:
+        # in int64 they wrap for values beyond ~3e9
         values = [v.astype(float) for v in values]
 
     if values_are_chunked:
